@@ -7,7 +7,7 @@ from harness import core, acegen
 from harness.core import Case, coq_list, outcome
 
 LEVEL = "proof"
-MODEL_TARGETS = ["run/RunSplit.vo"]
+MODEL_TARGETS = ["run/RunSplit.vo", "run/RunOps.vo"]
 RULE = ("IOS ACEs whose source and/or destination port is eq/neq with 1..10 operands (also gt/lt/range/none on the "
         "other side), with plain addresses or address groups with members, flags, logs; Ace.ungroup_ports on single "
         "entries and Acl/AceGroup.ungroup_ports on ACLs of 1..6 entries with remarks (flat and grouped), and the "
@@ -102,6 +102,53 @@ def correspond(ctx):
     ctx.coverage["input_distribution"] = {"aces": n, "acls": m, "really_split": len(nontrivial),
                                           "multi_neq": sum(1 for c in cases[:n] if multi_neq(c.meta["abstract"]))}
     core.eval_cases(ctx, "K-split", IMPORTS, cases, chunk=max(4, len(cases) // 16 + 1))
+    _split_histories(ctx, ca, rnd)
+
+
+def _split_histories(ctx, ca, rnd):
+    """ungroup_ports / platform=nxos inside histories: ACLs with many multi-port entries per block, grouped by
+    remarks, edited through insert() (loose entries beside the blocks), then split - model/Ops.v vs implementation,
+    and the C17 oracle (reference rule list) for a failing input"""
+    from harness.kernels import ops, acetext
+    from harness.props import C17
+    specs = []
+    for _ in range(60 if ctx.tier == "quick" else 1500):
+        body = []
+        for i in range(rnd.randint(3, 8)):
+            if rnd.random() < 0.18:
+                body.append("remark " + rnd.choice(["= B1", "= B2", "plain"]))
+                continue
+            a = gen_ace(rnd, multi=rnd.random() < 0.8)
+            for f in ("sport", "dport"):
+                if a[f] and a[f][0] == "neq":
+                    a[f] = ("neq", list(a[f][1][:1]))
+            for f in ("src", "dst"):
+                if a[f][0] != "set":
+                    a[f] = ("set", 0x0A000000 + i, 0)
+            body.append(" ".join(acetext.valid_text(rnd, ca, "ios", "0", a, None)))
+        spec = {"platform": "ios", "port_nr": rnd.random() < 0.2, "protocol_nr": False, "body": body, "ops": []}
+        try:
+            a_ = ops.build(ca, spec)
+        except Exception:  # noqa
+            continue
+        plan = rnd.choice([["group", "ungroup_ports"], ["group", "insert", "ungroup_ports"], ["ungroup_ports"],
+                           ["group", "insert", "insert", "platform"], ["group", "ungroup_ports", "ungroup", "ungroup_ports"],
+                           ["insert", "group", "platform"], ["group", "platform"]])
+        for k in plan:
+            op = {"group": ["group", "= "], "platform": ["platform", "nxos"]}.get(k) or ops.next_op(rnd, ca, a_, [k])
+            spec["ops"].append(op)
+            try:
+                a_ = ops.apply_op(ca, a_, op)
+            except Exception:  # noqa
+                break
+        specs.append(spec)
+    cases = ops.cases_for(ca, specs)
+    core.eval_cases(ctx, "K-split-history", ops.IMPORTS, cases, chunk=max(4, len(cases) // 16 + 1))
+    for sp in specs:
+        f = C17.check_history(ca, sp)
+        if f:
+            raise core.ImplViolation(dict(kind="input", kernel="K-split-history", input=dict(sp, k="history"), failure=f))
+    ctx.coverage["split_histories"] = len(specs)
 
 
 def _check_split(a, res_obs):
@@ -135,6 +182,9 @@ def _check_split(a, res_obs):
 
 
 def oracle(ctx, kernel, meta):
+    if meta.get("k") == "history":
+        from harness.props import C17
+        return C17.oracle(ctx, kernel, meta)
     ca = core.impl_module()
     if meta["k"] != "ace":
         return None
